@@ -1,5 +1,5 @@
 (* line driver for the C17 model.  input: one history per line, one character per call
-   (A F M S P = typed insertions, a f m s p = clear<Class>, x = clear()).  output: after every
+   (A F M S P = typed insertions, R = setFormatter with the previous formatter object again, a f m s p = clear<Class>, x = clear()).  output: after every
    call the list as "<class><id>," items terminated by ';' — the same format as h_sorted.
    mode "model" (default): run_src (model with the source's configuration)
    mode "spec":  spec_list (the specification)
@@ -9,7 +9,7 @@ let rec nat_of_int n = if n <= 0 then O else S (nat_of_int (n-1))
 let rec int_of_nat = function O -> 0 | S n -> 1 + int_of_nat n
 let ch = function Attr -> 'A' | Filt -> 'F' | Fmt -> 'M' | Snk -> 'S' | Pipe -> 'P' | Gen -> 'H'
 let cls_of = function 'A' -> Attr | 'F' -> Filt | 'M' -> Fmt | 'S' -> Snk | 'P' -> Pipe | _ -> Gen
-let op_of c = match c with 'A' -> AppendAttr | 'F' -> AppendFilter | 'M' -> SetFormatter
+let op_of c = match c with 'A' -> AppendAttr | 'F' -> AppendFilter | 'M' -> SetFormatter | 'R' -> SetFormatterAgain
   | 'S' -> AppendSink | 'P' -> AppendPipeline | 'a' -> Clear Attr | 'f' -> Clear Filt | 'm' -> Clear Fmt
   | 's' -> Clear Snk | 'p' -> Clear Pipe | _ -> ClearAll
 let show b r = List.iter (fun (c, i) -> Buffer.add_string b (Printf.sprintf "%c%d," (ch c) (int_of_nat i))) r; Buffer.add_char b ';'
